@@ -9,26 +9,30 @@
 (* outcomes from the logged `dev` / `stat` events, requests and caller     *)
 (* decisions from `req` / `call` events.                                    *)
 (***************************************************************************)
-EXTENDS RE, Json, IOUtils
+EXTENDS REProps, Json, IOUtils
 
-CONSTANTS PlanLib     \* [id -> sequence of messages]  pre/post plans of suspensions, referenced by `req` events
+CONSTANTS PlanLib,    \* [id -> sequence of messages]  pre/post plans of suspensions, referenced by `req` events
+          ProjKinds   \* event kinds that are compared (per-property projection); the trace file holds only these
 
 Traces == ndJsonDeserialize(IOEnv.TRACE_FILE)
 
-VARIABLES tid, l
-tvars == <<S, obs, tid, l>>
+VARIABLES tid, l, tr        \* tr: the chosen trace (carried in the state: IOEnv/ndJsonDeserialize is not cached by TLC)
+tvars == <<S, obs, tid, l, mon, tr>>
 
-T == Traces[tid]
+T == tr
 Has(i) == l + i <= Len(T)
 At(i) == T[l + i]            \* i-th not yet consumed event (0-based)
 
-TraceInit == /\ Init /\ tid \in 1..Len(Traces) /\ l = 1 /\ TLCSet(tid, 1)
+TraceInit == /\ Init /\ MonInit /\ l = 1
+             /\ LET all == Traces IN \E i \in 1..Len(all) : tid = i /\ tr = all[i] /\ TLCSet(i, 1)
 
 \* the step's outputs are exactly the next events of the trace
-Consume == /\ l + Len(obs') - 1 <= Len(T)
-           /\ \A i \in 1..Len(obs') : T[l + i - 1] = obs'[i]
-           /\ l' = l + Len(obs')
-           /\ UNCHANGED tid
+Projected(o) == SelectSeq(o, LAMBDA e : e[1] \in ProjKinds)
+Consume == LET po == Projected(obs') IN
+           /\ l + Len(po) - 1 <= Len(T)
+           /\ \A i \in 1..Len(po) : T[l + i - 1] = po[i]
+           /\ l' = l + Len(po)
+           /\ UNCHANGED <<tid, tr>>
            /\ TLCSet(tid, IF l' > TLCGet(tid) THEN l' ELSE TLCGet(tid))
 
 NoP == 0
@@ -55,9 +59,12 @@ PreX(id) == IF id \in DOMAIN PlanLib THEN PlanLib[id] ELSE <<>>
 Step ==
   \/ /\ S.pc = "fetch"
      /\ LET g == Top1(S.gens) IN
-        IF g.k = "env" THEN \E r \in EnvReactions : Fetch(r) ELSE Fetch(ListReact(g, FetchInput(S)))
+        IF g.k = "env" THEN
+           IF g.pos = 0 /\ FetchInput(S).t = "exc" THEN Fetch(Reaction("raise", NoMsg, FetchInput(S).v, NoP))
+           ELSE \E r \in EnvReactions : Fetch(r)
+        ELSE Fetch(ListReact(g, FetchInput(S)))
   \/ \E d \in {"ok", "raise", "fail", "later"} : Exec(d)
-  \/ Start \/ Top \/ Wake \/ AfterSleep0 \/ DeliverCancel \/ CmdDone \/ Exit \/ TailStep \/ Finally
+  \/ Start \/ Top \/ Wake \/ AfterSleep0 \/ (\E b \in BOOLEAN : DeliverCancel(b)) \/ CmdDone \/ Exit \/ TailStep \/ Finally
   \/ /\ Has(0) /\ At(0)[1] = "req"
      /\ \/ At(0)[2] = "pause" /\ ReqPause(FALSE)
         \/ At(0)[2] = "defer" /\ ReqPause(TRUE)
@@ -66,21 +73,23 @@ Step ==
         \/ At(0)[2] = "release" /\ ReleaseT(At(0)[3])
   \/ /\ Has(0) /\ At(0)[1] = "stat"
      /\ StatusDone(At(0)[6], At(0)[7] = 1)
-  \/ /\ Has(0) /\ At(0)[1] = "dev" /\ At(0)[3] = "update"
-     /\ MonitorUpdate(At(0)[2])
+  \/ /\ Has(0) /\ At(0)[1] = "req" /\ At(0)[2] = "update"
+     /\ MonitorUpdate(At(0)[3])
   \/ /\ Has(0) /\ At(0)[1] = "call"
-     /\ \/ At(0)[2] = "run" /\ Call(NoP)
+     /\ \/ At(0)[2] = "run" /\ Call(NoP, At(0)[3] = "ri")
         \/ At(0)[2] = "resume" /\ CallResume
         \/ At(0)[2] \in {"abort", "stop", "halt"} /\ CallTerminate(At(0)[2])
   \/ Return
 
-TraceNext == Step /\ Consume
+TraceNext == Step /\ Consume /\ MonNext
+TraceReport == Report(tid)
 
 TraceSpec == TraceInit /\ [][TraceNext]_tvars
 
 Progress(t) == TLCGet(t)
 TraceAccepted ==
-    LET bad == {t \in 1..Len(Traces) : Progress(t) # Len(Traces[t]) + 1}
+    LET all == Traces
+        bad == {t \in 1..Len(all) : Progress(t) # Len(all[t]) + 1}
     IN /\ \A t \in bad : PrintT(<<"REJECTED", t, Progress(t)>>)
        /\ bad = {}
 =============================================================================
